@@ -8,6 +8,7 @@ import (
 	"errors"
 	"fmt"
 	"os"
+	"strings"
 	"sync"
 	"testing"
 
@@ -22,6 +23,38 @@ var (
 	errFb    = errors.New("c01: value returned by the fallback")
 )
 
+// The two errors of the specification ("acc", "err") are classes of error VALUES: what the
+// breaker may look at is the caller's predicate, never the text of the error (the logging wrapper
+// feeds err.Error() to its error report).  Each class has a value with a short, an empty and a
+// long message; a call picks one (seeded).
+var (
+	errAccs   = []error{errAcc, errors.New(""), errors.New("c01 acc " + strings.Repeat("a", 6000))}
+	errUnaccs = []error{errUnacc, errors.New(""), errors.New("c01 err " + strings.Repeat("e\n%d", 2000))}
+)
+
+func classOf(err error) string {
+	for _, e := range errAccs {
+		if err == e {
+			return "acc"
+		}
+	}
+	for _, e := range errUnaccs {
+		if err == e {
+			return "err"
+		}
+	}
+	return ""
+}
+
+// reasons are the texts handed to Promise.Reject, by the reason class of the call kind
+// (Breaker.tla: 0 short, 1 empty, 2 long, 3 line breaks / format verbs / NUL).
+var reasons = []string{
+	"c01 reason",
+	"",
+	"c01 long reason " + strings.Repeat("r", 8192),
+	"c01 line one\nline two\r\n%d %s %v %!x(MISSING) 100%\x00 end",
+}
+
 type panicValue struct{ id int }
 
 // predicate builds the caller's acceptable-predicate of a call kind from the specification's
@@ -29,12 +62,13 @@ type panicValue struct{ id int }
 // bit 4 = errUnacc).  It is a function of the error VALUE only, e.g. 6 rejects nil.
 func predicate(mask int) breaker.Acceptable {
 	return func(err error) bool {
-		switch err {
-		case nil:
+		if err == nil {
 			return mask&1 != 0
-		case errAcc:
+		}
+		switch classOf(err) {
+		case "acc":
 			return mask&2 != 0
-		case errUnacc:
+		case "err":
 			return mask&4 != 0
 		}
 		return false // an error the protected function never returns
@@ -54,14 +88,13 @@ func errLabel(err error) string {
 	switch err {
 	case nil:
 		return "ok"
-	case errAcc:
-		return "acc"
-	case errUnacc:
-		return "err"
 	case errFb:
 		return "fb"
 	case breaker.ErrServiceUnavailable:
 		return "unavail"
+	}
+	if c := classOf(err); c != "" {
+		return c
 	}
 	return "other:" + err.Error()
 }
@@ -77,9 +110,10 @@ type coreTarget struct {
 
 func (t *coreTarget) real(name string) string { return t.prefix + name }
 
-// names starting with "p" are private instances made with breaker.New; all others live in the
-// process-wide registry
-func (t *coreTarget) isPrivate(name string) bool { return name[0] == 'p' }
+// The name says how the breaker comes into being (Breaker.tla, call kinds): "p.." is a private
+// instance made with breaker.New(WithName(..)), "q.." a private instance made with breaker.New()
+// (generated name); all others live in the process-wide registry.
+func (t *coreTarget) isPrivate(name string) bool { return name[0] == 'p' || name[0] == 'q' }
 
 func (t *coreTarget) Disable(name string) { breaker.NoBreakerFor(t.real(name)) }
 
@@ -101,7 +135,11 @@ func (t *coreTarget) doWith(name string, c verifc01.Call, onReq func(), onFb fun
 			if t.private == nil {
 				t.private = map[string]breaker.Breaker{}
 			}
-			b = breaker.New(breaker.WithName(t.real(name)))
+			if name[0] == 'q' {
+				b = breaker.New()
+			} else {
+				b = breaker.New(breaker.WithName(t.real(name)))
+			}
 			t.private[name] = b
 		}
 	} else {
@@ -112,6 +150,7 @@ func (t *coreTarget) doWith(name string, c verifc01.Call, onReq func(), onFb fun
 		}
 	}
 	t.mu.Unlock()
+	variant := int((mix(uint64(t.seed)*7368787+uint64(t.idx)*104729+uint64(ncalls)) >> 8) % 3) // which value of the error class
 	pv := &panicValue{ncalls}
 	acceptable := predicate(c.N)
 	req := func() error {
@@ -123,9 +162,9 @@ func (t *coreTarget) doWith(name string, c verifc01.Call, onReq func(), onFb fun
 		case "ok":
 			return nil
 		case "acc":
-			return errAcc
+			return errAccs[variant]
 		case "err":
-			return errUnacc
+			return errUnaccs[variant]
 		case "panic":
 			panic(pv)
 		}
@@ -156,10 +195,13 @@ func (t *coreTarget) doWith(name string, c verifc01.Call, onReq func(), onFb fun
 		if onReq != nil {
 			onReq()
 		}
-		if c.Oc == "accept" {
+		switch {
+		case c.Oc == "accept":
 			p.Accept()
-		} else {
-			p.Reject("c01 reason")
+		case c.Oc == "reject" && c.N >= 0 && c.N < len(reasons):
+			p.Reject(reasons[c.N])
+		default:
+			panic(fmt.Sprintf("c01 core driver: unknown promise call %s/%d", c.Oc, c.N))
 		}
 		o.Ret = "nil"
 		return
